@@ -865,7 +865,7 @@ func genC11(rt *rapid.T) *C11Case {
 				c.PaySeed = rapid.Uint64().Draw(rt, "pseed")
 			}
 		case "XOR-PEER-ADDRESS", "XOR-RELAYED-ADDRESS":
-			fam := rapid.SampledFrom([]string{"v4", "v4", "v6", "mapped"}).Draw(rt, "fam")
+			fam := rapid.SampledFrom([]string{"v4", "v4", "v6", "mapped", "near-mapped"}).Draw(rt, "fam")
 			switch fam {
 			case "v4":
 				b := rapid.SliceOfN(rapid.Byte(), 4, 4).Draw(rt, "ip")
@@ -873,6 +873,20 @@ func genC11(rt *rapid.T) *C11Case {
 				c.U = 4
 			case "mapped":
 				b := rapid.SliceOfN(rapid.Byte(), 4, 4).Draw(rt, "ip")
+				c.IP = net.IP(b).String()
+				c.U = 16
+			case "near-mapped":
+				// a genuine IPv6 address one step away from the IPv4-mapped / IPv4-compatible shapes
+				b := make([]byte, 16)
+				copy(b[12:], rapid.SliceOfN(rapid.Byte(), 4, 4).Draw(rt, "ip"))
+				if rapid.IntRange(0, 3).Draw(rt, "ffff") > 0 {
+					b[10], b[11] = 0xff, 0xff
+				}
+				at := rapid.IntRange(0, 11).Draw(rt, "nearAt")
+				b[at] ^= byte(rapid.IntRange(1, 255).Draw(rt, "nearXor"))
+				if net.IP(b).To4() != nil {
+					b[0] = 0x20
+				}
 				c.IP = net.IP(b).String()
 				c.U = 16
 			default:
